@@ -29,7 +29,7 @@ Local Open Scope F_scope.
 (* the abstract functions the generated closed forms refer to *)
 Record lenv (K : fld) := LEnv {
   l_ex : K -> K; l_sn : K -> K; l_cs : K -> K; l_fabs : K -> K; l_pi : K;
-  l_neg : K -> bool; l_Fn : nat -> K -> K; l_Ic : nat -> nat -> K }.
+  l_isr : K -> bool; l_neg : K -> bool; l_Fn : nat -> K -> K; l_Ic : nat -> nat -> K }.
 
 Section LModel.
 Variable K : fld.
@@ -37,6 +37,7 @@ Add Field KFlm : (fth K).
 Variable ex : K -> K.
 Variables sn cs : K -> K.
 Variable j : K.
+Variable isr : K -> bool.
 Variable neg : K -> bool.
 Variable Fn : nat -> K -> K.
 Variable Ic : nat -> nat -> K.
@@ -66,12 +67,12 @@ Definition tx := list mono.
 (* ------------------------------------------------------------------ meaning of classical factors *)
 Definition one_r : list rt := [(1, O, 0)].
 Definition step_nf (a b : K) : option nf :=
-  if pos a then
+  if isr a && isr b && pos a then
     let T := - b / a in
     Some (if neg T || feqb T 0 then [NReg None one_r] else [NReg (Some T) one_r])
   else None.
 Definition ramp_nf (a b : K) : option nf :=
-  if pos a then
+  if isr a && isr b && pos a then
     let T := - b / a in
     Some (if neg T || feqb T 0 then [NReg None [(a, 1%nat, 0); (b, O, 0)]] else [NReg (Some T) [(a, 1%nat, 0)]])
   else None.
@@ -87,7 +88,7 @@ Definition leaf_nf (l : leaf) : option nf :=
   | LCosh w p => Some [NReg None [(ex p / two, O, w); (ex (- p) / two, O, - w)]]
   | LU a b => step_nf a b
   | LDelta k a b =>
-      if pos a then let T := - b / a in Some (if neg T then [] else [NSing T (pmonom (1 / fpow a (S k)) k)]) else None
+      if isr a && isr b && pos a then let T := - b / a in Some (if neg T then [] else [NSing T (pmonom (1 / fpow a (S k)) k)]) else None
   | LRect a b => oapp (step_nf a (b + half)) (oscale (- (1)) (step_nf a (b - half)))
   | LTri a b => oapp (ramp_nf a (b + 1)) (oapp (oscale (- two) (ramp_nf a b)) (ramp_nf a (b - 1)))
   | LRamp a b => ramp_nf a b
@@ -108,7 +109,7 @@ Definition is_named (l : leaf) : bool :=
   match l with LUndef _ _ _ | LDeriv _ _ | LInteg _ | LConv _ _ => true | _ => false end.
 Definition remove_heaviside (fs : list leaf) : list leaf := filter (fun l => negb (is_ut l)) fs.
 Definition undef_sig (v : nat) (a b : K) : option signal :=
-  if pos a && (neg b || feqb b 0) then Some (SDelay (- b / a) (STScale a (SFn v))) else None.
+  if isr a && isr b && pos a && (neg b || feqb b 0) then Some (SDelay (- b / a) (STScale a (SFn v))) else None.
 Definition den_named (fs : list leaf) : option signal :=
   match fs with
   | [LUndef v a b] => undef_sig v a b
@@ -119,17 +120,6 @@ Definition den_named (fs : list leaf) : option signal :=
   | [LConv v h] => Some (SConv (SFn v) (SFn h))
   | _ => None
   end.
-Definition den_mono (m : mono) : option signal :=
-  let fs := remove_heaviside (snd m) in
-  if existsb is_named fs then
-    match den_named fs with Some x => Some (SScale (fst m) x) | None => None end
-  else match mono_nf (fst m, fs) with Some N => Some (embed N) | None => None end.
-Fixpoint den (e : tx) : option signal :=
-  match e with
-  | [] => Some SZero
-  | m :: e' => match den_mono m, den e' with Some x, Some y => Some (SAdd x y) | _, _ => None end
-  end.
-
 (* ------------------------------------------------------------------ the closed forms (filled by LaplaceGen.v) *)
 Fixpoint sum_range (n : nat) (f : nat -> K) : K := match n with O => 0 | S k => sum_range k f + f k end.
 Record forms := Forms {
@@ -342,6 +332,772 @@ Definition divc (k : K) (e : tx) : tx := map (fun m => (fst m / k, snd m)) e.
 Definition doit (zic : bool) (e : tx) : option (K -> K) * list ev :=
   let k := top_const e in
   let (r, evs) := doit_terms zic (divc k e) in (vscale k r, evs).
+
+
+(* ================================================================================================
+   SOUNDNESS
+   ================================================================================================ *)
+(* ---- well-formedness of the normal forms produced by the semantics ------------------------------ *)
+Notation nf_ok := (nf_ok K isr neg).
+Notation nf_val := (nf_val K ex).
+Notation nf_dom := (nf_dom K).
+Notation LPairK := (LPair K ex isr neg Fn).
+
+(* ---- hypotheses about the abstract functions ---------------------------------------------------- *)
+Hypothesis ex_add : forall a b, ex (a + b) = ex a * ex b.
+Hypothesis ex_0 : ex 0 = 1.
+Hypothesis jj : j * j = - (1).
+Hypothesis sn_euler : forall x, sn x = (ex (j * x) - ex (- (j * x))) / (two * j).
+Hypothesis cs_euler : forall x, cs x = (ex (j * x) + ex (- (j * x))) / two.
+(* the real elements form a subfield, ordered by [neg]  (K = C: isr = "is real", neg = "is a negative real") *)
+Hypothesis isr_0 : isr 0 = true.
+Hypothesis isr_1 : isr 1 = true.
+Hypothesis isr_add : forall x y, isr x = true -> isr y = true -> isr (x + y) = true.
+Hypothesis isr_opp : forall x, isr x = true -> isr (- x) = true.
+Hypothesis isr_mul : forall x y, isr x = true -> isr y = true -> isr (x * y) = true.
+Hypothesis isr_inv : forall x, isr x = true -> isr (1 / x) = true.
+Hypothesis neg_0 : neg 0 = false.
+Hypothesis neg_1 : neg 1 = false.
+Hypothesis neg_opp : forall x, isr x = true -> x <> 0 -> neg (- x) = negb (neg x).
+Hypothesis neg_mul : forall x y, isr x = true -> isr y = true -> x <> 0 -> y <> 0 -> neg (x * y) = xorb (neg x) (neg y).
+Hypothesis neg_inv : forall x, isr x = true -> x <> 0 -> neg (1 / x) = neg x.
+Hypothesis neg_add : forall x y, isr x = true -> isr y = true -> neg x = false -> neg y = false -> neg (x + y) = false.
+
+Lemma isr_div x y : isr x = true -> isr y = true -> isr (x / y) = true.
+Proof. intros Hx Hy. replace (x / y) with (x * (1 / y)) by (unfold fdiv; rewrite !(Fdiv_def (fth K)); ring).
+  apply isr_mul; [exact Hx | apply isr_inv; exact Hy]. Qed.
+Lemma isr_sub x y : isr x = true -> isr y = true -> isr (x - y) = true.
+Proof. intros Hx Hy. replace (x - y) with (x + - y) by ring. apply isr_add; [exact Hx | apply isr_opp; exact Hy]. Qed.
+Lemma isr_T a b : isr a = true -> isr b = true -> isr (- b / a) = true.
+Proof. intros Ha Hb. apply isr_div; [apply isr_opp; exact Hb | exact Ha]. Qed.
+Lemma and3 (x y z : bool) : x && y && z = true -> x = true /\ y = true /\ z = true.
+Proof. destruct x, y, z; cbn; intros H; try discriminate; auto. Qed.
+
+Lemma oapp_some (a b : option nf) R : oapp a b = Some R -> exists x y, a = Some x /\ b = Some y /\ R = x ++ y.
+Proof. destruct a as [x|], b as [y|]; cbn; intros H; try discriminate. inversion H. eauto. Qed.
+Lemma emul_ok a b R : nent_ok K isr neg a -> nent_ok K isr neg b -> emul K ex neg a b = Some R -> nf_ok R.
+Proof. destruct a as [[d1|] r1|T1 q1], b as [[d2|] r2|T2 q2]; cbn [emul nent_ok]; intros Ha Hb H;
+  repeat match type of H with context [if ?c then _ else _] => destruct c end;
+  inversion H; subst; cbn [LaplaceSig.nf_ok nent_ok]; auto. Qed.
+Lemma emul_row_ok a M : nent_ok K isr neg a -> nf_ok M -> forall R, emul_row K ex neg a M = Some R -> nf_ok R.
+Proof. intros Ha. induction M as [|b M IH]; cbn [emul_row LaplaceSig.nf_ok]; intros HM R H.
+  - inversion H. exact I.
+  - destruct HM as [Hb HM]. apply oapp_some in H. destruct H as [x [y [H1 [H2 ->]]]].
+    apply nf_ok_app. split; [exact (emul_ok a b x Ha Hb H1) | exact (IH HM y H2)]. Qed.
+Lemma nmul_ok N M : nf_ok N -> nf_ok M -> forall R, nmul K ex neg N M = Some R -> nf_ok R.
+Proof. induction N as [|a N IH]; cbn [nmul LaplaceSig.nf_ok]; intros HN HM R H.
+  - inversion H. exact I.
+  - destruct HN as [Ha HN]. apply oapp_some in H. destruct H as [x [y [H1 [H2 ->]]]].
+    apply nf_ok_app. split; [exact (emul_row_ok a M Ha HM x H1) | exact (IH HN HM y H2)]. Qed.
+Lemma oscale_ok c N R : oscale c N = Some R -> (forall x, N = Some x -> nf_ok x) -> nf_ok R.
+Proof. destruct N as [x|]; cbn; intros H Hx; [|discriminate]. inversion H. exact (nf_ok_nscale K ex isr neg c x (Hx x eq_refl)). Qed.
+Lemma step_nf_ok a b R : step_nf a b = Some R -> nf_ok R.
+Proof. unfold step_nf. destruct (isr a && isr b && pos a) eqn:C; [|discriminate]. apply and3 in C. destruct C as [Ra [Rb _]].
+  intros H. inversion H. pose proof (isr_T a b Ra Rb).
+  destruct (neg (- b / a)) eqn:E1; cbn [orb]; [cbn; auto|]. destruct (feqb (- b / a) 0); cbn; auto. Qed.
+Lemma ramp_nf_ok a b R : ramp_nf a b = Some R -> nf_ok R.
+Proof. unfold ramp_nf. destruct (isr a && isr b && pos a) eqn:C; [|discriminate]. apply and3 in C. destruct C as [Ra [Rb _]].
+  intros H. inversion H. pose proof (isr_T a b Ra Rb).
+  destruct (neg (- b / a)) eqn:E1; cbn [orb]; [cbn; auto|]. destruct (feqb (- b / a) 0); cbn; auto. Qed.
+Lemma oapp_ok a b R : oapp a b = Some R -> (forall x, a = Some x -> nf_ok x) -> (forall y, b = Some y -> nf_ok y) -> nf_ok R.
+Proof. intros H Ha Hb. apply oapp_some in H. destruct H as [x [y [H1 [H2 ->]]]]. apply nf_ok_app. split; auto. Qed.
+Lemma leaf_nf_ok l R : leaf_nf l = Some R -> nf_ok R.
+Proof. destruct l; cbn [leaf_nf]; intros H; try discriminate; try (inversion H; cbn; auto; fail).
+  - exact (step_nf_ok _ _ _ H).
+  - destruct (isr a && isr b && pos a) eqn:C; [|discriminate]. apply and3 in C. destruct C as [Ra [Rb _]].
+    pose proof (isr_T a b Ra Rb). inversion H. destruct (neg (- b / a)) eqn:E; cbn; auto.
+  - apply (oapp_ok _ _ _ H); [apply step_nf_ok | intros y Hy; apply (oscale_ok _ _ _ Hy); apply step_nf_ok].
+  - apply (oapp_ok _ _ _ H); [apply ramp_nf_ok|]. intros y Hy. apply (oapp_ok _ _ _ Hy); [|apply ramp_nf_ok].
+    intros z Hz. apply (oscale_ok _ _ _ Hz). apply ramp_nf_ok.
+  - exact (ramp_nf_ok _ _ _ H).
+  - apply (oapp_ok _ _ _ H); [apply ramp_nf_ok | intros y Hy; apply (oscale_ok _ _ _ Hy); apply ramp_nf_ok]. Qed.
+Theorem prod_nf_ok fs : forall R, prod_nf fs = Some R -> nf_ok R.
+Proof. induction fs as [|l fs IH]; intros R H.
+  - inversion H. cbn. auto.
+  - destruct fs as [|l2 fs].
+    + exact (leaf_nf_ok l R H).
+    + change (prod_nf (l :: l2 :: fs)) with
+        (match leaf_nf l, prod_nf (l2 :: fs) with Some a, Some b => nmul K ex neg a b | _, _ => None end) in H.
+      destruct (leaf_nf l) as [a|] eqn:E1; [|discriminate]. destruct (prod_nf (l2 :: fs)) as [b|] eqn:E2; [|discriminate].
+      exact (nmul_ok a b (leaf_nf_ok l a E1) (IH b eq_refl) R H). Qed.
+
+Lemma two_nz : two <> 0.
+Proof. exact (fchar0 K 2%positive). Qed.
+Lemma j_nz : j <> 0.
+Proof. intros E. apply (one_nz K). transitivity (- (j * j)); [rewrite jj; ring | rewrite E; ring]. Qed.
+Lemma ex_nz x : ex x <> 0.
+Proof. intros E. apply (one_nz K). rewrite <- ex_0. replace 0 with (x + - x) by ring. rewrite ex_add, E. ring. Qed.
+Lemma ex_opp x : ex (- x) = 1 / ex x.
+Proof. pose proof (ex_nz x) as H. assert (E : ex x * ex (- x) = 1) by (rewrite <- ex_add, <- ex_0; f_equal; ring).
+  transitivity (ex x * ex (- x) / ex x); [field; exact H | rewrite E; reflexivity]. Qed.
+Lemma ex_eq a b : a = b -> ex a = ex b.
+Proof. intros ->. reflexivity. Qed.
+Lemma pos_nz a : pos a = true -> a <> 0.
+Proof. unfold LaplaceSig.pos. intros H. apply andb_true_iff in H. destruct H as [_ H]. apply negb_true_iff in H.
+  apply feqb_neq in H. exact H. Qed.
+Lemma pos_neg a : pos a = true -> neg a = false.
+Proof. unfold LaplaceSig.pos. intros H. apply andb_true_iff in H. destruct H as [H _]. apply negb_true_iff in H. exact H. Qed.
+Lemma pos_1 : pos 1 = true.
+Proof. unfold LaplaceSig.pos. rewrite neg_1. cbn. apply negb_true_iff. apply feqb_neq. apply one_nz. Qed.
+Lemma half_nz : half <> 0.
+Proof. unfold half. apply div_nz; [apply one_nz | apply two_nz]. Qed.
+Lemma isr_two : isr two = true.
+Proof. apply isr_add; exact isr_1. Qed.
+Lemma isr_half : isr half = true.
+Proof. unfold half. apply isr_inv. exact isr_two. Qed.
+Lemma neg_two : neg two = false.
+Proof. apply neg_add; try exact isr_1; exact neg_1. Qed.
+Lemma neg_half : neg half = false.
+Proof. unfold half. rewrite neg_inv; [exact neg_two | exact isr_two | apply two_nz]. Qed.
+Lemma neg_div_pos x a : isr x = true -> isr a = true -> pos a = true -> x <> 0 -> neg (x / a) = neg x.
+Proof. intros Rx Ra Ha Hx. pose proof (pos_nz a Ha) as Hn. replace (x / a) with (x * (1 / a)) by (field; exact Hn).
+  rewrite neg_mul; [| exact Rx | apply isr_inv; exact Ra | exact Hx | apply div_nz; [apply one_nz | exact Hn]].
+  rewrite neg_inv by assumption. rewrite (pos_neg a Ha). destruct (neg x); reflexivity. Qed.
+
+(* ---- the textbook table values -------------------------------------------------------------------- *)
+Definition sq (x : K) : K := x * x.
+Definition sc_tau (hasu : bool) (zeta : K) : K :=
+  if hasu then (if neg (- zeta) || feqb (- zeta) 0 then 0 else - zeta) else 0.
+Definition spec_sincos (iscos hasu : bool) (al be w p zeta s : K) : K :=
+  let tau := sc_tau hasu zeta in
+  let ph := p + w * tau in
+  ex be * ex (- (tau * s)) * ex (al * tau) *
+  ((if iscos then (s - al) * cs ph - w * sn ph else w * cs ph + (s - al) * sn ph) / (sq (s - al) + sq w)).
+Definition spec_rect (a s : K) : K := (1 - ex (- (s / (two * a)))) / s.
+Definition spec_tri (a s : K) : K := 1 / s - a * (1 - ex (- (s / a))) / sq s.
+Definition spec_ramp (a s : K) : K := a / sq s.
+Definition spec_rstep (a s : K) : K := a * (1 - ex (- (s / a))) / sq s.
+Definition spec_func (v : nat) (a b s : K) : K := ex (s * b / a) * Fn v (s / a) / a.
+Definition Icz (zic : bool) (v m : nat) : K := if zic then 0 else Ic v m.
+Definition spec_deriv (v k : nat) (zic : bool) (s : K) : K := fpow s k * Fn v s - ic_sum K (Icz zic) v k s.
+
+(* what the generated closed forms have to satisfy (proved in props/C09_entry_*.v for the current source) *)
+Record forms_ok : Prop := FormsOk {
+  const_ok : forall c s, s <> 0 -> f_const F c s = c / s;
+  exp_ok : forall c a s, s - a <> 0 -> f_exp F c a s = c / (s - a);
+  sincos_ok : forall iscos hasu al be w p zeta s, sq (s - al) + sq w <> 0 ->
+      f_sincos F iscos hasu al be w p (if hasu then zeta else 0) s = spec_sincos iscos hasu al be w p zeta s;
+  guard_ok : forall n m, f_sc_guard F n m = true -> (n <= S m)%nat;
+  rect_ok : forall a s, a <> 0 -> s <> 0 -> f_rect F a s = spec_rect a s;
+  tri_ok : forall a s, a <> 0 -> s <> 0 -> f_tri F a s = spec_tri a s;
+  ramp_ok : forall a s, s <> 0 -> f_ramp F a s = spec_ramp a s;
+  rstep_ok : forall a s, a <> 0 -> s <> 0 -> f_rstep F a s = spec_rstep a s;
+  func_ok : forall v a b s, pos a = true -> f_func F v a b s = spec_func v a b s;
+  deriv_ok : forall v k zic s, f_deriv F v k zic s = spec_deriv v k zic s;
+  integ_ok : forall c X s, s <> 0 -> f_integ F c X s = c * X / s;
+  conv_ok : forall c A B, f_conv F c A B = c * A * B
+}.
+
+
+(* ---- values of normal forms: general lemmas ------------------------------------------------------- *)
+Lemma lbinom_0 n : lbinom n 0 = 1%nat.
+Proof. destruct n; reflexivity. Qed.
+Lemma lbinom_over n : forall k, (n < k)%nat -> lbinom n k = 0%nat.
+Proof. induction n as [|n IH]; intros k Hk; destruct k as [|k]; try lia; cbn [lbinom]; [reflexivity|].
+  rewrite (IH k), (IH (S k)) by lia. reflexivity. Qed.
+Lemma lbinom_nn n : lbinom n n = 1%nat.
+Proof. induction n as [|n IH]; [reflexivity|]. cbn [lbinom]. rewrite IH, lbinom_over by lia. reflexivity. Qed.
+Lemma neg_eq (x y : K) : x = y -> neg x = neg y.
+Proof. intros ->. reflexivity. Qed.
+Lemma feqb_eqv (x y : K) : x = y -> feqb x 0 = feqb y 0.
+Proof. intros ->. reflexivity. Qed.
+Lemma fdiv_mul (a b c : K) : a * (b / c) = a * b / c.
+Proof. unfold fdiv. rewrite !(Fdiv_def (fth K)). ring. Qed.
+Lemma rval_eq_s (s s' : K) (r : list rt) : s = s' -> rval s r = rval s' r.
+Proof. intros ->. reflexivity. Qed.
+(* exponential weighting at the level of normal forms: e·e^{at}·r(t)  has transform  e·R(s - a) *)
+Lemma rval_tmul_exp s e a (r : list rt) : rval s (tmul [(e, O, a)] r) = e * rval (s - a) r.
+Proof. unfold tmul. cbn [flat_map]. rewrite app_nil_r. induction r as [|[[c n] p] r IH]; cbn [map rval tmul1]; [ring|].
+  rewrite IH. cbn [Nat.add]. rewrite lbinom_0. cbn [fnat].
+  replace (s - (a + p)) with (s - a - p) by ring. unfold fdiv. rewrite !(Fdiv_def (fth K)). ring. Qed.
+Lemma tmul_cons_one (x : rt) (r : list rt) : tmul (x :: r) one_r = tmul1 x (1, O, 0) :: tmul r one_r.
+Proof. reflexivity. Qed.
+Lemma rval_tmul_one s (r : list rt) : rval s (tmul r one_r) = rval s r.
+Proof. induction r as [|[[c n] p] r IH]; [reflexivity|]. rewrite tmul_cons_one. cbn [rval tmul1]. rewrite IH.
+  rewrite Nat.add_0_r, lbinom_nn. cbn [fnat].
+  replace (s - (p + 0)) with (s - p) by ring. unfold fdiv. rewrite !(Fdiv_def (fth K)). ring. Qed.
+Ltac nzs Hs := repeat split; try assumption; try (let E := fresh "E" in intro E; apply Hs; rewrite <- E; ring).
+Lemma rval_one s : s <> 0 -> rval s one_r = 1 / s.
+Proof. intros Hs. unfold one_r. cbn [rval fpow]. field. nzs Hs. Qed.
+Lemma rval_lin s a b : s <> 0 -> rval s [(a, 1%nat, 0); (b, O, 0)] = a / sq s + b / s.
+Proof. intros Hs. cbn [rval fpow]. unfold sq. field. nzs Hs. Qed.
+Lemma rval_lin1 s a : s <> 0 -> rval s [(a, 1%nat, 0)] = a / sq s.
+Proof. intros Hs. cbn [rval fpow]. unfold sq. field. nzs Hs. Qed.
+
+(* ---- rect / tri / ramp / rampstep with scale a > 0 and no shift ------------------------------------ *)
+Lemma T_adv a x : isr a = true -> isr x = true -> pos a = true -> x <> 0 -> neg x = false -> neg (- x / a) = true.
+Proof. intros Ra Rx Ha Hx Hn. rewrite neg_div_pos; [| apply isr_opp; exact Rx | exact Ra | exact Ha | apply opp_nz; exact Hx].
+  rewrite neg_opp by assumption. rewrite Hn. reflexivity. Qed.
+Lemma T_del a x : isr a = true -> isr x = true -> pos a = true -> x <> 0 -> neg x = false ->
+  neg (x / a) = false /\ feqb (x / a) 0 = false.
+Proof. intros Ra Rx Ha Hx Hn. split; [rewrite neg_div_pos by assumption; exact Hn|]. apply feqb_neq. apply div_nz; [exact Hx | apply pos_nz; exact Ha]. Qed.
+
+Lemma step_adv a b : isr a = true -> isr b = true -> pos a = true -> b <> 0 -> neg b = false -> step_nf a b = Some [NReg None one_r].
+Proof. intros Ra Rb Ha Hb Hn. unfold step_nf. rewrite Ra, Rb, Ha. cbn [andb]. rewrite (T_adv a b Ra Rb Ha Hb Hn). reflexivity. Qed.
+Lemma step_del a b : isr a = true -> isr b = true -> pos a = true -> b <> 0 -> neg b = false ->
+  step_nf a (- b) = Some [NReg (Some (b / a)) one_r].
+Proof. intros Ra Rb Ha Hb Hn. unfold step_nf. rewrite Ra, (isr_opp b Rb), Ha. cbn [andb]. pose proof (pos_nz a Ha) as Hz.
+  assert (E : - - b / a = b / a) by (field; exact Hz). rewrite E. destruct (T_del a b Ra Rb Ha Hb Hn) as [H1 H2]. rewrite H1, H2. reflexivity. Qed.
+Lemma ramp_adv a b : isr a = true -> isr b = true -> pos a = true -> b <> 0 -> neg b = false ->
+  ramp_nf a b = Some [NReg None [(a, 1%nat, 0); (b, O, 0)]].
+Proof. intros Ra Rb Ha Hb Hn. unfold ramp_nf. rewrite Ra, Rb, Ha. cbn [andb]. rewrite (T_adv a b Ra Rb Ha Hb Hn). reflexivity. Qed.
+Lemma ramp_zero a : isr a = true -> pos a = true -> ramp_nf a 0 = Some [NReg None [(a, 1%nat, 0); (0, O, 0)]].
+Proof. intros Ra Ha. unfold ramp_nf. rewrite Ra, isr_0, Ha. cbn [andb]. pose proof (pos_nz a Ha) as Hz.
+  assert (E : feqb (- 0 / a) 0 = true) by (apply feqb_eq; field; exact Hz). rewrite E, orb_true_r. reflexivity. Qed.
+Lemma ramp_del a b : isr a = true -> isr b = true -> pos a = true -> b <> 0 -> neg b = false ->
+  ramp_nf a (- b) = Some [NReg (Some (b / a)) [(a, 1%nat, 0)]].
+Proof. intros Ra Rb Ha Hb Hn. unfold ramp_nf. rewrite Ra, (isr_opp b Rb), Ha. cbn [andb]. pose proof (pos_nz a Ha) as Hz.
+  assert (E : - - b / a = b / a) by (field; exact Hz). rewrite E. destruct (T_del a b Ra Rb Ha Hb Hn) as [H1 H2]. rewrite H1, H2. reflexivity. Qed.
+
+Definition rect_N (a : K) : nf := [NReg None one_r] ++ nscale (- (1)) [NReg (Some (half / a)) one_r].
+Definition tri_N (a : K) : nf :=
+  [NReg None [(a, 1%nat, 0); (1, O, 0)]] ++ nscale (- two) [NReg None [(a, 1%nat, 0); (0, O, 0)]] ++ [NReg (Some (1 / a)) [(a, 1%nat, 0)]].
+Definition ramp_N (a : K) : nf := [NReg None [(a, 1%nat, 0); (0, O, 0)]].
+Definition rstep_N (a : K) : nf := [NReg None [(a, 1%nat, 0); (0, O, 0)]] ++ nscale (- (1)) [NReg (Some (1 / a)) [(a, 1%nat, 0)]].
+Lemma rect_nf a : isr a = true -> pos a = true -> leaf_nf (LRect a 0) = Some (rect_N a).
+Proof. intros Ra Ha. cbn [leaf_nf]. replace (0 + half) with half by ring. replace (0 - half) with (- half) by ring.
+  rewrite (step_adv a half Ra isr_half Ha half_nz neg_half), (step_del a half Ra isr_half Ha half_nz neg_half). reflexivity. Qed.
+Lemma tri_nf a : isr a = true -> pos a = true -> leaf_nf (LTri a 0) = Some (tri_N a).
+Proof. intros Ra Ha. cbn [leaf_nf]. replace (0 + 1) with (1 : K) by ring. replace (0 - 1) with (- (1) : K) by ring.
+  rewrite (ramp_adv a 1 Ra isr_1 Ha (one_nz K) neg_1), (ramp_zero a Ra Ha), (ramp_del a 1 Ra isr_1 Ha (one_nz K) neg_1). reflexivity. Qed.
+Lemma ramp_nf0 a : isr a = true -> pos a = true -> leaf_nf (LRamp a 0) = Some (ramp_N a).
+Proof. intros Ra Ha. cbn [leaf_nf]. exact (ramp_zero a Ra Ha). Qed.
+Lemma rstep_nf a : isr a = true -> pos a = true -> leaf_nf (LRstep a 0) = Some (rstep_N a).
+Proof. intros Ra Ha. cbn [leaf_nf]. replace (0 - 1) with (- (1) : K) by ring.
+  rewrite (ramp_zero a Ra Ha), (ramp_del a 1 Ra isr_1 Ha (one_nz K) neg_1). reflexivity. Qed.
+
+Ltac nzc := repeat split; first [assumption | apply two_nz | apply (one_nz K) | apply j_nz | apply ex_nz | idtac].
+Lemma rect_val a s : a <> 0 -> s <> 0 -> nf_val s (rect_N a) = spec_rect a s.
+Proof. intros Ha Hs. unfold rect_N, spec_rect. cbn [app nscale map nent_scale LaplaceSig.nf_val nent_val].
+  rewrite rval_rscale, (rval_one s Hs).
+  replace (ex (- (half / a * s))) with (ex (- (s / (two * a)))) by (apply ex_eq; unfold half; field; nzc).
+  field; nzc. Qed.
+Lemma tri_val a s : a <> 0 -> s <> 0 -> nf_val s (tri_N a) = spec_tri a s.
+Proof. intros Ha Hs. unfold tri_N, spec_tri. cbn [app nscale map nent_scale LaplaceSig.nf_val nent_val].
+  rewrite rval_rscale, !(rval_lin s _ _ Hs), (rval_lin1 s _ Hs).
+  replace (ex (- (1 / a * s))) with (ex (- (s / a))) by (apply ex_eq; field; nzc).
+  unfold sq. field; nzc. Qed.
+Lemma ramp_val a s : s <> 0 -> nf_val s (ramp_N a) = spec_ramp a s.
+Proof. intros Hs. unfold ramp_N, spec_ramp. cbn [LaplaceSig.nf_val nent_val]. rewrite (rval_lin s _ _ Hs). unfold sq. field; nzc. Qed.
+Lemma rstep_val a s : a <> 0 -> s <> 0 -> nf_val s (rstep_N a) = spec_rstep a s.
+Proof. intros Ha Hs. unfold rstep_N, spec_rstep. cbn [app nscale map nent_scale LaplaceSig.nf_val nent_val].
+  rewrite rval_rscale, (rval_lin s _ _ Hs), (rval_lin1 s _ Hs).
+  replace (ex (- (1 / a * s))) with (ex (- (s / a))) by (apply ex_eq; field; nzc).
+  unfold sq. field; nzc. Qed.
+
+
+(* ---- [exp] sin|cos [Heaviside] --------------------------------------------------------------------- *)
+Definition sin_r (w p : K) : list rt := [(ex (j * p) / (two * j), O, j * w); (- (ex (- (j * p)) / (two * j)), O, - (j * w))].
+Definition cos_r (w p : K) : list rt := [(ex (j * p) / two, O, j * w); (ex (- (j * p)) / two, O, - (j * w))].
+Definition trig_r (iscos : bool) (w p : K) : list rt := if iscos then cos_r w p else sin_r w p.
+Definition trig_leaf (iscos : bool) (w p : K) : leaf := if iscos then LCos w p else LSin w p.
+Lemma leaf_nf_trig iscos w p : leaf_nf (trig_leaf iscos w p) = Some [NReg None (trig_r iscos w p)].
+Proof. destruct iscos; reflexivity. Qed.
+Lemma sq_fact x w : sq x + sq w = (x - j * w) * (x + j * w).
+Proof. unfold sq. transitivity (x * x - (j * j) * (w * w)); [rewrite jj; ring | ring]. Qed.
+Definition real_form (iscos : bool) (x w ph : K) : K :=
+  (if iscos then x * cs ph - w * sn ph else w * cs ph + x * sn ph) / (sq x + sq w).
+Lemma inv_j y : y / j = - (j * y).
+Proof. pose proof j_nz as Hj. transitivity (- (j * j) * y / j); [rewrite jj; field; exact Hj | field; exact Hj]. Qed.
+Lemma rval_trig iscos w p x : x - j * w <> 0 -> x + j * w <> 0 -> rval x (trig_r iscos w p) = real_form iscos x w p.
+Proof. intros H1 H2. unfold real_form. rewrite sq_fact, sn_euler, cs_euler.
+  destruct iscos; unfold trig_r, cos_r, sin_r; cbn [rval fpow]; cbv beta iota;
+    replace (x - - (j * w)) with (x + j * w) by ring;
+    generalize (ex (j * p)) (ex (- (j * p))); intros A A'.
+  - replace ((A - A') / (two * j)) with (- (j * ((A - A') / two))) by (rewrite <- inv_j; field; nzc).
+    field; nzc.
+  - field; nzc.
+Qed.
+Lemma trig_r_eq iscos w p p' : p = p' -> trig_r iscos w p = trig_r iscos w p'.
+Proof. intros ->. reflexivity. Qed.
+(* shifting the sinusoid by T adds w T to the phase *)
+Lemma rval_tshift_trig iscos w p T x : rval x (tshift K ex T (trig_r iscos w p)) = rval x (trig_r iscos w (p + w * T)).
+Proof.
+  assert (E1 : ex (j * (p + w * T)) = ex (j * p) * ex (j * w * T)) by (rewrite <- ex_add; apply ex_eq; ring).
+  assert (E2 : ex (- (j * (p + w * T))) = ex (- (j * p)) * ex (- (j * w) * T)) by (rewrite <- ex_add; apply ex_eq; ring).
+  destruct iscos; unfold trig_r, cos_r, sin_r, tshift; cbn [flat_map tshift1 seq map app rval Nat.sub fpow natfact Nat.mul Nat.add fnat];
+    rewrite E1, E2; unfold fdiv; rewrite !(Fdiv_def (fth K));
+    replace (finv (1 + 0)) with (1 : K) by (symmetry; transitivity ((1 : K) / (1 + 0)); [rewrite (Fdiv_def (fth K)); ring | field; intro E; apply (one_nz K); rewrite <- E; ring]); ring. Qed.
+Definition core_val (iscos : bool) (al be w p tau s : K) : K :=
+  ex be * ex (- (tau * s)) * ex (al * tau) * rval (s - al) (trig_r iscos w (p + w * tau)).
+Lemma spec_core iscos hasu al be w p zeta s : s - al - j * w <> 0 -> s - al + j * w <> 0 ->
+  spec_sincos iscos hasu al be w p zeta s = core_val iscos al be w p (sc_tau hasu zeta) s.
+Proof. intros H1 H2. unfold spec_sincos, core_val. cbv zeta. rewrite (rval_trig iscos w _ (s - al) H1 H2). reflexivity. Qed.
+
+Definition e_r (al be : K) : list rt := [(ex be, O, al)].
+Lemma tshift_e al be T : tshift K ex T (e_r al be) = [(ex be * ex (al * T) * 1 / (1 + 0), O, al)].
+Proof. reflexivity. Qed.
+Lemma one10 : (1 + 0 : K) <> 0.
+Proof. intro E. apply (one_nz K). rewrite <- E. ring. Qed.
+
+(* the six shapes and their normal forms *)
+Lemma shape_S iscos w p : prod_nf [trig_leaf iscos w p] = Some [NReg None (trig_r iscos w p)].
+Proof. exact (leaf_nf_trig iscos w p). Qed.
+Lemma shape_ES iscos al be w p :
+  prod_nf [LExp al be; trig_leaf iscos w p] = Some [NReg None (tmul (e_r al be) (trig_r iscos w p))].
+Proof. change (prod_nf [LExp al be; trig_leaf iscos w p]) with
+    (match leaf_nf (LExp al be), leaf_nf (trig_leaf iscos w p) with Some a, Some b => nmul K ex neg a b | _, _ => None end).
+  rewrite leaf_nf_trig. reflexivity. Qed.
+Definition step_T (zeta : K) : K := - zeta / 1.
+Definition delayed (zeta : K) : bool := negb (neg (step_T zeta) || feqb (step_T zeta) 0).
+Lemma step_nf_1 zeta : isr zeta = true ->
+  step_nf 1 zeta = Some (if delayed zeta then [NReg (Some (step_T zeta)) one_r] else [NReg None one_r]).
+Proof. intros Rz. unfold step_nf, delayed, step_T. rewrite isr_1, Rz, pos_1. cbn [andb].
+  destruct (neg (- zeta / 1) || feqb (- zeta / 1) 0); reflexivity. Qed.
+Lemma step_nf_1_none zeta : isr zeta = false -> step_nf 1 zeta = None.
+Proof. intros Rz. unfold step_nf. rewrite isr_1, Rz. reflexivity. Qed.
+Lemma shape_SU iscos w p zeta : isr zeta = true ->
+  prod_nf [trig_leaf iscos w p; LU 1 zeta] =
+  Some (if delayed zeta then [NReg (Some (step_T zeta)) (tmul (tshift K ex (step_T zeta) (trig_r iscos w p)) one_r)]
+        else [NReg None (tmul (trig_r iscos w p) one_r)]).
+Proof. intros Rz. change (prod_nf [trig_leaf iscos w p; LU 1 zeta]) with
+    (match leaf_nf (trig_leaf iscos w p), step_nf 1 zeta with Some a, Some b => nmul K ex neg a b | _, _ => None end).
+  rewrite leaf_nf_trig, step_nf_1 by exact Rz. destruct (delayed zeta); reflexivity. Qed.
+Lemma shape_ESU iscos al be w p zeta : isr zeta = true ->
+  prod_nf [LExp al be; trig_leaf iscos w p; LU 1 zeta] =
+  Some (if delayed zeta
+        then [NReg (Some (step_T zeta)) (tmul (tshift K ex (step_T zeta) (e_r al be)) (tmul (tshift K ex (step_T zeta) (trig_r iscos w p)) one_r))]
+        else [NReg None (tmul (e_r al be) (tmul (trig_r iscos w p) one_r))]).
+Proof. intros Rz. change (prod_nf [LExp al be; trig_leaf iscos w p; LU 1 zeta]) with
+    (match leaf_nf (LExp al be), prod_nf [trig_leaf iscos w p; LU 1 zeta] with Some a, Some b => nmul K ex neg a b | _, _ => None end).
+  rewrite shape_SU by exact Rz. destruct (delayed zeta); reflexivity. Qed.
+
+Lemma shape_SU_none iscos w p zeta : isr zeta = false -> prod_nf [trig_leaf iscos w p; LU 1 zeta] = None.
+Proof. intros Rz. change (prod_nf [trig_leaf iscos w p; LU 1 zeta]) with
+    (match leaf_nf (trig_leaf iscos w p), step_nf 1 zeta with Some a, Some b => nmul K ex neg a b | _, _ => None end).
+  rewrite leaf_nf_trig, step_nf_1_none by exact Rz. reflexivity. Qed.
+Lemma shape_ESU_none iscos al be w p zeta : isr zeta = false -> prod_nf [LExp al be; trig_leaf iscos w p; LU 1 zeta] = None.
+Proof. intros Rz. change (prod_nf [LExp al be; trig_leaf iscos w p; LU 1 zeta]) with
+    (match leaf_nf (LExp al be), prod_nf [trig_leaf iscos w p; LU 1 zeta] with Some a, Some b => nmul K ex neg a b | _, _ => None end).
+  rewrite shape_SU_none by exact Rz. reflexivity. Qed.
+Lemma sc_tau_delayed zeta : sc_tau true zeta = if delayed zeta then step_T zeta else 0.
+Proof. unfold sc_tau, delayed, step_T. assert (E : - zeta / 1 = - zeta) by (field; apply one_nz). rewrite E.
+  destruct (neg (- zeta) || feqb (- zeta) 0); reflexivity. Qed.
+Lemma core0 iscos al be w p s : core_val iscos al be w p 0 s = ex be * rval (s - al) (trig_r iscos w p).
+Proof. unfold core_val. rewrite (trig_r_eq iscos w (p + w * 0) p) by ring.
+  replace (- (0 * s)) with (0 : K) by ring. replace (al * 0) with (0 : K) by ring. rewrite ex_0. ring. Qed.
+
+Lemma val_S iscos w p s : nf_val s [NReg None (trig_r iscos w p)] = core_val iscos 0 0 w p 0 s.
+Proof. rewrite core0, ex_0. cbn [LaplaceSig.nf_val nent_val]. rewrite (rval_eq_s (s - 0) s) by ring. ring. Qed.
+Lemma val_ES iscos al be w p s : nf_val s [NReg None (tmul (e_r al be) (trig_r iscos w p))] = core_val iscos al be w p 0 s.
+Proof. rewrite core0. cbn [LaplaceSig.nf_val nent_val]. unfold e_r. rewrite rval_tmul_exp. ring. Qed.
+Lemma val_SU iscos w p zeta s :
+  nf_val s (if delayed zeta then [NReg (Some (step_T zeta)) (tmul (tshift K ex (step_T zeta) (trig_r iscos w p)) one_r)]
+            else [NReg None (tmul (trig_r iscos w p) one_r)]) = core_val iscos 0 0 w p (sc_tau true zeta) s.
+Proof. rewrite sc_tau_delayed. destruct (delayed zeta).
+  - unfold core_val. cbn [LaplaceSig.nf_val nent_val]. rewrite rval_tmul_one, rval_tshift_trig.
+    rewrite (rval_eq_s (s - 0) s) by ring. replace (0 * step_T zeta) with (0 : K) by ring. rewrite ex_0. ring.
+  - rewrite core0, ex_0. cbn [LaplaceSig.nf_val nent_val]. rewrite rval_tmul_one. rewrite (rval_eq_s (s - 0) s) by ring. ring. Qed.
+Lemma val_ESU iscos al be w p zeta s :
+  nf_val s (if delayed zeta
+        then [NReg (Some (step_T zeta)) (tmul (tshift K ex (step_T zeta) (e_r al be)) (tmul (tshift K ex (step_T zeta) (trig_r iscos w p)) one_r))]
+        else [NReg None (tmul (e_r al be) (tmul (trig_r iscos w p) one_r))]) = core_val iscos al be w p (sc_tau true zeta) s.
+Proof. rewrite sc_tau_delayed. destruct (delayed zeta).
+  - unfold core_val. cbn [LaplaceSig.nf_val nent_val]. rewrite tshift_e, rval_tmul_exp, rval_tmul_one, rval_tshift_trig.
+    field. apply one_nz.
+  - rewrite core0. cbn [LaplaceSig.nf_val nent_val]. unfold e_r. rewrite rval_tmul_exp, rval_tmul_one. ring. Qed.
+
+
+(* ---- denotation of a monomial / an expression --------------------------------------------------------- *)
+Definition den1 (c : K) (fs : list leaf) : option signal :=
+  if existsb is_named fs then
+    match den_named fs with Some x => Some (SScale c x) | None => None end
+  else match mono_nf (c, fs) with Some N => Some (embed N) | None => None end.
+Fixpoint den_list (ms : list mono) : option signal :=
+  match ms with
+  | [] => Some SZero
+  | (c, fs) :: ms' => match den1 c fs, den_list ms' with Some x, Some y => Some (SAdd x y) | _, _ => None end
+  end.
+(* sinh / cosh are DEFINED by exponentials: a product containing them denotes the expanded sum *)
+Definition den_mono (m : mono) : option signal :=
+  let fs := remove_heaviside (snd m) in
+  if existsb is_hyp fs then
+    match den_list (hyp_expand fs) with Some x => Some (SScale (fst m) x) | None => None end
+  else den1 (fst m) fs.
+Fixpoint den (e : tx) : option signal :=
+  match e with
+  | [] => Some SZero
+  | m :: e' => match den_mono m, den e' with Some x, Some y => Some (SAdd x y) | _, _ => None end
+  end.
+Definition dom1 (fs : list leaf) (s : K) : Prop := s <> 0 /\ forall N, prod_nf fs = Some N -> nf_dom s N.
+Fixpoint dom_list (ms : list mono) (s : K) : Prop :=
+  match ms with [] => True | (c, fs) :: ms' => dom1 fs s /\ dom_list ms' s end.
+Definition dom_mono (m : mono) (s : K) : Prop :=
+  let fs := remove_heaviside (snd m) in
+  if existsb is_hyp fs then dom_list (hyp_expand fs) s else dom1 fs s.
+Fixpoint dom (e : tx) (s : K) : Prop := match e with [] => True | m :: e' => dom_mono m s /\ dom e' s end.
+
+(* ---- the contracts -------------------------------------------------------------------------------------- *)
+Hypothesis HF : forms_ok.
+(* sympy.integrate (integrate_0 / integrate_0minus): returns the table value of the exp-poly-impulse normal form *)
+Hypothesis orc_ok : forall N X, orc N = Some X -> forall s, nf_dom s N -> X s = nf_val s N.
+
+Lemma classical_sound Ic' c fs N (X : K -> K) : existsb is_named fs = false -> prod_nf fs = Some N ->
+  (forall s, dom1 fs s -> X s = c * nf_val s N) ->
+  forall x, den1 c fs = Some x -> LPair K ex isr neg Fn Ic' x (dom1 fs) X.
+Proof. intros Hn HN HX x Hd. unfold den1 in Hd. rewrite Hn in Hd. unfold mono_nf in Hd. cbn [fst snd] in Hd. rewrite HN in Hd.
+  cbn [oscale] in Hd. inversion Hd; subst x.
+  apply LPair_of_val.
+  - apply (nf_ok_nscale K ex isr neg). exact (prod_nf_ok fs N HN).
+  - intros s Hs. split.
+    + apply (nf_dom_nscale K ex isr neg). destruct Hs as [_ Hs]. exact (Hs N HN).
+    + rewrite nf_val_nscale. apply HX. exact Hs. Qed.
+
+Lemma early_sound Ic' c fs X x : early c fs = Some X -> den1 c fs = Some x -> LPair K ex isr neg Fn Ic' x (dom1 fs) X.
+Proof. destruct HF. unfold early. destruct fs as [|l fs].
+  - intros H. inversion H; subst X. apply (classical_sound Ic' c [] [NReg None one_r]); [reflexivity | reflexivity|].
+    intros s [Hs _]. rewrite const_ok0 by exact Hs. cbn [LaplaceSig.nf_val nent_val]. rewrite (rval_one s Hs). field. exact Hs.
+  - destruct l; try discriminate. destruct fs; [|discriminate]. destruct (feqb b 0) eqn:Eb; [|discriminate].
+    apply feqb_eq in Eb. subst b. intros H. inversion H; subst X.
+    apply (classical_sound Ic' c [LExp a 0] [NReg None [(ex 0, O, a)]]); [reflexivity | reflexivity|].
+    intros s [Hs Hd]. pose proof (Hd _ eq_refl) as [Hp _]. assert (Hn : s - a <> 0) by (apply (Hp (ex 0) O a); left; reflexivity).
+    rewrite exp_ok0 by exact Hn. cbn [LaplaceSig.nf_val nent_val rval fpow]. rewrite ex_0. field. exact Hn. Qed.
+
+
+(* ---- sin_cos is sound when the guard rejects extra factors ------------------------------------------------ *)
+Ltac reduce_r H := cbn [trig_r cos_r sin_r tmul flat_map map app tmul1 e_r tshift tshift1 seq one_r Nat.add Nat.sub] in H.
+Ltac pole1 Hp := let E := fresh "E" in intro E; eapply Hp; [left; reflexivity | rewrite <- E; ring].
+Ltac pole2 Hp := let E := fresh "E" in intro E; eapply Hp; [right; left; reflexivity | rewrite <- E; ring].
+Lemma poles_of al w s (r : list rt) :
+  (exists c1 c2 q1 q2, r = [(c1, O, q1); (c2, O, q2)] /\ q1 = al + j * w /\ q2 = al - j * w) ->
+  rpole_free s r -> s - al - j * w <> 0 /\ s - al + j * w <> 0.
+Proof. intros [c1 [c2 [q1 [q2 [-> [E1 E2]]]]]] Hp. split.
+  - intro E. apply (Hp c1 O q1); [left; reflexivity|]. rewrite E1, <- E. ring.
+  - intro E. apply (Hp c2 O q2); [right; left; reflexivity|]. rewrite E2, <- E. ring. Qed.
+Ltac two_poles := cbn [trig_r cos_r sin_r tmul flat_map map app tmul1 e_r tshift tshift1 seq one_r Nat.add Nat.sub];
+  do 4 eexists; (split; [reflexivity | split; ring]).
+Lemma sincos_sound fs X : sincos_model fs = Some X -> forall N, prod_nf fs = Some N ->
+  exists iscos hasu al be w p zeta,
+    X = f_sincos F iscos hasu al be w p (if hasu then zeta else 0) /\
+    (forall s, nf_dom s N -> (s - al - j * w <> 0 /\ s - al + j * w <> 0) /\
+                            nf_val s N = core_val iscos al be w p (sc_tau hasu zeta) s).
+Proof. destruct HF. unfold sincos_model.
+  assert (Tail : forall iscos (hase : bool) al be w p rest,
+     sc_tail iscos al be w p (if hase then 2 else 1)%nat ((if hase then 2 else 1) + length rest)%nat rest = Some X ->
+     (rest = [] /\ X = f_sincos F iscos false al be w p 0) \/
+     (exists zeta, rest = [LU 1 zeta] /\ X = f_sincos F iscos true al be w p zeta)).
+  { intros iscos hase al be w p rest. unfold sc_tail.
+    destruct (f_sc_guard F _ _) eqn:G; cbn [negb]; [|discriminate]. apply guard_ok0 in G.
+    destruct rest as [|l1 rest].
+    - destruct hase; cbn [length Nat.add Nat.eqb]; intros H; inversion H; left; split; reflexivity.
+    - destruct rest as [|l2 rest]; [|exfalso; destruct hase; cbn [length] in G; lia].
+      destruct hase; cbn [length Nat.add Nat.eqb]; destruct l1; try discriminate;
+        (destruct (feqb a 1) eqn:Ea; [|discriminate]); apply feqb_eq in Ea; subst a; intros H; inversion H;
+        right; eexists; split; reflexivity. }
+  assert (ES : forall iscos a b w p N, prod_nf [LExp a b; trig_leaf iscos w p] = Some N ->
+     forall s, nf_dom s N -> (s - a - j * w <> 0 /\ s - a + j * w <> 0) /\ nf_val s N = core_val iscos a b w p (sc_tau false 0) s).
+  { intros iscos a b w p N HN. rewrite shape_ES in HN. inversion HN; subst N. intros s [Hp _].
+    split; [destruct iscos; refine (poles_of a w s _ _ Hp); two_poles | apply val_ES]. }
+  assert (ESU : forall iscos a b w p zeta N, prod_nf [LExp a b; trig_leaf iscos w p; LU 1 zeta] = Some N ->
+     forall s, nf_dom s N -> (s - a - j * w <> 0 /\ s - a + j * w <> 0) /\ nf_val s N = core_val iscos a b w p (sc_tau true zeta) s).
+  { intros iscos a b w p zeta N HN. destruct (isr zeta) eqn:Rz; [|rewrite shape_ESU_none in HN by exact Rz; discriminate].
+    rewrite shape_ESU in HN by exact Rz. inversion HN; subst N. intros s Hd. split; [|apply val_ESU].
+    destruct iscos; destruct (delayed zeta); destruct Hd as [Hp _]; (refine (poles_of a w s _ _ Hp); two_poles). }
+  assert (S0 : forall iscos w p N, prod_nf [trig_leaf iscos w p] = Some N ->
+     forall s, nf_dom s N -> (s - 0 - j * w <> 0 /\ s - 0 + j * w <> 0) /\ nf_val s N = core_val iscos 0 0 w p (sc_tau false 0) s).
+  { intros iscos w p N HN. rewrite shape_S in HN. inversion HN; subst N. intros s [Hp _].
+    split; [destruct iscos; refine (poles_of 0 w s _ _ Hp); two_poles | apply val_S]. }
+  assert (SU : forall iscos w p zeta N, prod_nf [trig_leaf iscos w p; LU 1 zeta] = Some N ->
+     forall s, nf_dom s N -> (s - 0 - j * w <> 0 /\ s - 0 + j * w <> 0) /\ nf_val s N = core_val iscos 0 0 w p (sc_tau true zeta) s).
+  { intros iscos w p zeta N HN. destruct (isr zeta) eqn:Rz; [|rewrite shape_SU_none in HN by exact Rz; discriminate].
+    rewrite shape_SU in HN by exact Rz. inversion HN; subst N. intros s Hd. split; [|apply val_SU].
+    destruct iscos; destruct (delayed zeta); destruct Hd as [Hp _]; (refine (poles_of 0 w s _ _ Hp); two_poles). }
+  destruct fs as [|l0 fs]; [discriminate|].
+  destruct l0; try discriminate.
+  - (* exp first *) destruct fs as [|l1 rest]; [discriminate|]. destruct l1; try discriminate.
+    + intros H N HN. destruct (Tail false true a b w p rest H) as [[-> ->]|[zeta [-> ->]]].
+      * exists false, false, a, b, w, p, 0. split; [reflexivity | exact (ES false a b w p N HN)].
+      * exists false, true, a, b, w, p, zeta. split; [reflexivity | exact (ESU false a b w p zeta N HN)].
+    + intros H N HN. destruct (Tail true true a b w p rest H) as [[-> ->]|[zeta [-> ->]]].
+      * exists true, false, a, b, w, p, 0. split; [reflexivity | exact (ES true a b w p N HN)].
+      * exists true, true, a, b, w, p, zeta. split; [reflexivity | exact (ESU true a b w p zeta N HN)].
+  - intros H N HN. destruct (Tail false false 0 0 w p fs H) as [[-> ->]|[zeta [-> ->]]].
+    + exists false, false, 0, 0, w, p, 0. split; [reflexivity | exact (S0 false w p N HN)].
+    + exists false, true, 0, 0, w, p, zeta. split; [reflexivity | exact (SU false w p zeta N HN)].
+  - intros H N HN. destruct (Tail true false 0 0 w p fs H) as [[-> ->]|[zeta [-> ->]]].
+    + exists true, false, 0, 0, w, p, 0. split; [reflexivity | exact (S0 true w p N HN)].
+    + exists true, true, 0, 0, w, p, zeta. split; [reflexivity | exact (SU true w p zeta N HN)].
+Qed.
+
+(* ---- named functions ------------------------------------------------------------------------------------- *)
+Lemma ic_sum_zero v k s : ic_sum K (Icz true) v k s = 0.
+Proof. induction k as [|k IH]; cbn [ic_sum]; [reflexivity|]. rewrite IH. unfold Icz. ring. Qed.
+Lemma undef_sig_sound Ic' v a b x : undef_sig v a b = Some x ->
+  pos a = true /\ LPair K ex isr neg Fn Ic' x (fun _ => True) (fun s => spec_func v a b s).
+Proof. unfold undef_sig. destruct (isr a) eqn:Ra; [|discriminate]. destruct (isr b) eqn:Rb; [|discriminate].
+  destruct (pos a) eqn:Ha; [|discriminate]. cbn [andb].
+  destruct (neg b || feqb b 0) eqn:Hb; [|discriminate]. intros H. inversion H; subst x. split; [reflexivity|].
+  pose proof (pos_nz a Ha) as Hz.
+  assert (HT : neg (- b / a) = false).
+  { destruct (feqb b 0) eqn:E0.
+    - apply feqb_eq in E0. subst b. rewrite (neg_eq (- 0 / a) 0) by (field; exact Hz). exact neg_0.
+    - apply feqb_neq in E0. rewrite orb_false_r in Hb.
+      rewrite neg_div_pos; [| apply isr_opp; exact Rb | exact Ra | exact Ha | apply opp_nz; exact E0].
+      rewrite neg_opp by assumption. rewrite Hb. reflexivity. }
+  apply (LPair_eq K ex isr neg Fn Ic' _ _ (fun s => ex (- (- b / a * s)) * (Fn v (s / a) / a))).
+  - intros s _. unfold spec_func. rewrite (ex_eq (- (- b / a * s)) (s * b / a)) by (field; exact Hz). field. exact Hz.
+  - apply LP_delay; [exact (isr_T a b Ra Rb) | exact HT|].
+    apply (LP_tscale K ex isr neg Fn Ic' a (SFn v) (fun _ => True) (Fn v)); [exact Ra | exact Ha | apply LP_fn]. Qed.
+
+Lemma named_sound zic c fs X evs x : existsb is_named fs = true ->
+  undef_model zic fs = (Some X, evs) -> den1 c fs = Some x ->
+  LPair K ex isr neg Fn (Icz zic) x (dom1 fs) (fun s => c * X s).
+Proof. destruct HF. intros Hn Hu Hd. unfold den1 in Hd. rewrite Hn in Hd.
+  destruct (den_named fs) as [y|] eqn:Ey; [|discriminate]. inversion Hd; subst x. clear Hd.
+  apply (LPair_dom K ex isr neg Fn (Icz zic) _ (fun _ => True)); [intros; exact I|].
+  apply LP_scale. unfold undef_model in Hu.
+  destruct (existsb (fun l => match l with LDeriv _ _ => true | _ => false end) fs) eqn:Ed.
+  - (* LDeriv *) destruct fs as [|l0 [|l1 fs]]; try discriminate; destruct l0; try discriminate.
+    inversion Hu; subst X. cbn [den_named] in Ey. inversion Ey; subst y.
+    apply (LPair_eq K ex isr neg Fn (Icz zic) _ _ (fun s => fpow s k * Fn v s - ic_sum K (Icz zic) v k s)); [|apply LPair_derivN].
+    intros s _. rewrite deriv_ok0. reflexivity.
+  - destruct fs as [|l0 [|l1 [|l2 fs]]]; try discriminate; destruct l0; try discriminate.
+    + inversion Hu; subst X. cbn [den_named] in Ey. destruct (undef_sig_sound (Icz zic) v a b y Ey) as [Ha HL].
+      apply (LPair_eq K ex isr neg Fn (Icz zic) _ _ (fun s => spec_func v a b s)); [|exact HL].
+      intros s _. symmetry. apply func_ok0. exact Ha.
+    + destruct l1; try discriminate. cbn [den_named] in Ey.
+      destruct (feqb b0 0) eqn:Eb; [|discriminate].
+      destruct (undef_sig v a b) as [z|] eqn:Ez; [|discriminate]. inversion Ey; subst y.
+      inversion Hu; subst X.
+      destruct (undef_sig_sound (Icz zic) v a b z Ez) as [Ha HL].
+      apply (LPair_eq K ex isr neg Fn (Icz zic) _ _ (fun s => spec_func v a b (s - a0))).
+      * intros s _. symmetry. apply func_ok0. exact Ha.
+      * exact (LP_expw K ex isr neg Fn (Icz zic) a0 z (fun _ => True) (fun s => spec_func v a b s) HL).
+    + destruct l1; discriminate.
+Qed.
+
+Lemma integral_sound zic c fs X evs x : integral_model c fs = (Some X, evs) -> den1 c fs = Some x ->
+  LPair K ex isr neg Fn (Icz zic) x (dom1 fs) X.
+Proof. destruct HF. unfold integral_model. destruct fs as [|l0 fs]; [discriminate|].
+  destruct l0; try discriminate; (destruct fs; [|discriminate]); intros H; inversion H; subst X; clear H;
+    unfold den1; cbn [existsb is_named orb den_named]; intros Hd; inversion Hd; subst x; clear Hd.
+  - apply (LP_weaken K ex isr neg Fn (Icz zic) _ (fun s => True /\ s <> 0) _ (fun s => c * (Fn v s / s))).
+    + intros s [Hs _]. split; [split; [exact I | exact Hs]|].
+      rewrite integ_ok0 by exact Hs. rewrite func_ok0 by exact pos_1. unfold spec_func.
+      rewrite (ex_eq (s * 0 / 1) 0) by (field; apply one_nz). rewrite ex_0.
+      replace (s / 1) with s by (field; apply one_nz). field; nzc.
+    + apply LP_scale. apply (LP_integ K ex isr neg Fn (Icz zic) (SFn v) (fun _ => True) (Fn v)). apply LP_fn.
+  - apply (LP_weaken K ex isr neg Fn (Icz zic) _ (fun s => True /\ True) _ (fun s => c * (Fn v s * Fn h s))).
+    + intros s _. split; [tauto|]. rewrite conv_ok0. rewrite !func_ok0 by exact pos_1. unfold spec_func.
+      rewrite (ex_eq (s * 0 / 1) 0) by (field; apply one_nz). rewrite ex_0.
+      replace (s / 1) with s by (field; apply one_nz). field; nzc.
+    + apply LP_scale. apply (LP_conv K ex isr neg Fn (Icz zic) (SFn v) (SFn h) (fun _ => True) (fun _ => True) (Fn v) (Fn h)); apply LP_fn.
+Qed.
+
+(* ---- function(), the oracle, and the whole of term ----------------------------------------------------------- *)
+Lemma function_sound Ic' c l X x : function_model l = Some X -> den1 c [l] = Some x ->
+  LPair K ex isr neg Fn Ic' x (dom1 [l]) (fun s => c * X s).
+Proof. destruct HF. unfold function_model.
+  destruct l; try discriminate; (destruct (feqb b 0) eqn:Eb; [|discriminate]); apply feqb_eq in Eb; subst b;
+    intros H; inversion H; subst X; clear H; intros Hd;
+    (destruct (isr a) eqn:Ra;
+     [| exfalso; unfold den1, mono_nf in Hd; cbn [existsb is_named orb fst snd prod_nf leaf_nf] in Hd;
+        unfold step_nf, ramp_nf in Hd; rewrite Ra in Hd; cbn in Hd; discriminate]);
+    (destruct (pos a) eqn:Ha;
+     [| exfalso; unfold den1, mono_nf in Hd; cbn [existsb is_named orb fst snd prod_nf leaf_nf] in Hd;
+        unfold step_nf, ramp_nf in Hd; rewrite Ha in Hd; rewrite ?andb_false_r in Hd; cbn in Hd; discriminate]);
+    pose proof (pos_nz a Ha) as Hz.
+  - apply (classical_sound Ic' c [LRect a 0] (rect_N a)); [reflexivity | exact (rect_nf a Ra Ha) | | exact Hd].
+    intros s [Hs _]. rewrite rect_ok0, rect_val by assumption. reflexivity.
+  - apply (classical_sound Ic' c [LTri a 0] (tri_N a)); [reflexivity | exact (tri_nf a Ra Ha) | | exact Hd].
+    intros s [Hs _]. rewrite tri_ok0, tri_val by assumption. reflexivity.
+  - apply (classical_sound Ic' c [LRamp a 0] (ramp_N a)); [reflexivity | exact (ramp_nf0 a Ra Ha) | | exact Hd].
+    intros s [Hs _]. rewrite ramp_ok0, ramp_val by assumption. reflexivity.
+  - apply (classical_sound Ic' c [LRstep a 0] (rstep_N a)); [reflexivity | exact (rstep_nf a Ra Ha) | | exact Hd].
+    intros s [Hs _]. rewrite rstep_ok0, rstep_val by assumption. reflexivity.
+Qed.
+
+Lemma oracle_sound Ic' c fs b X evs x : existsb is_named fs = false ->
+  oracle_branch c fs b = (Some X, evs) -> den1 c fs = Some x -> LPair K ex isr neg Fn Ic' x (dom1 fs) X.
+Proof. intros Hn. unfold oracle_branch. destruct (prod_nf fs) as [N|] eqn:EN; [|discriminate].
+  destruct (orc N) as [X0|] eqn:EO; cbn [vscale]; [|discriminate]. intros H; inversion H; subst X; clear H.
+  apply (classical_sound Ic' c fs N); [exact Hn | exact EN|].
+  intros s [_ Hd]. rewrite (orc_ok N X0 EO s (Hd N EN)). reflexivity. Qed.
+
+Lemma late_sound zic c fs X evs x : late zic c fs = (Some X, evs) -> den1 c fs = Some x ->
+  LPair K ex isr neg Fn (Icz zic) x (dom1 fs) X.
+Proof. unfold late. destruct (existsb is_named fs) eqn:Hn.
+  - destruct (undef_model zic fs) as [r ev0] eqn:Eu. destruct r as [X0|]; cbn [vscale]; [|discriminate].
+    intros H; inversion H; subst X; clear H. exact (named_sound zic c fs X0 ev0 x Hn Eu).
+  - destruct fs as [|l fs]; [exact (oracle_sound _ c [] false X evs x Hn)|].
+    destruct fs as [|l2 fs]; [|exact (oracle_sound _ c _ false X evs x Hn)].
+    destruct (is_function l).
+    + destruct (function_model l) as [X0|] eqn:Ef.
+      * intros H; inversion H; subst X; clear H. exact (function_sound _ c l X0 x Ef).
+      * destruct (oracle_branch c [l] true) as [r ev0] eqn:Eo. intros H; inversion H; subst r; clear H.
+        exact (oracle_sound _ c [l] true X ev0 x Hn Eo).
+    + exact (oracle_sound _ c [l] false X evs x Hn).
+Qed.
+
+(* THE dispatch is sound: whatever branch term1 takes, the value it returns is LPair-related to the meaning *)
+Theorem term1_sound zic c fs X evs x : term1 zic c fs = (Some X, evs) -> den1 c fs = Some x ->
+  LPair K ex isr neg Fn (Icz zic) x (dom1 fs) X.
+Proof. unfold term1. destruct (early c fs) as [X0|] eqn:Ee.
+  - intros H; inversion H; subst X; clear H. exact (early_sound _ c fs X0 x Ee).
+  - destruct (existsb is_integral fs) eqn:Hi; [exact (integral_sound zic c fs X evs x)|].
+    destruct (existsb is_trig fs) eqn:Ht; [|exact (late_sound zic c fs X evs x)].
+    destruct (sincos_model fs) as [X0|] eqn:Es.
+    + intros H; inversion H; subst X; clear H. intros Hd.
+      assert (Hnn : existsb is_named fs = false).
+      { destruct (existsb is_named fs) eqn:E; [|reflexivity]. exfalso. unfold den1 in Hd. rewrite E in Hd.
+        unfold sincos_model in Es. destruct fs as [|l0 fs]; [discriminate|].
+        destruct l0; try discriminate; cbn [den_named] in Hd; try discriminate. }
+      destruct (prod_nf fs) as [N|] eqn:HN;
+        [| exfalso; unfold den1, mono_nf in Hd; rewrite Hnn in Hd; cbn [fst snd] in Hd; rewrite HN in Hd; discriminate].
+      destruct (sincos_sound fs X0 Es N HN) as [iscos [hasu [al [be [w [p [zeta [-> HV]]]]]]]].
+      apply (classical_sound _ c fs N); [exact Hnn | exact HN | | exact Hd].
+      intros s [_ Hdm]. destruct (HV s (Hdm N HN)) as [[P1 P2] V]. rewrite V. destruct HF.
+      rewrite sincos_ok0 by (rewrite sq_fact; apply mul_nz; assumption).
+      rewrite (spec_core iscos hasu al be w p zeta s P1 P2). reflexivity.
+    + destruct (late zic c fs) as [r ev0] eqn:El. intros H; inversion H; subst r; clear H.
+      exact (late_sound zic c fs X ev0 x El).
+Qed.
+
+
+Lemma vadd_some (r1 r2 : option (K -> K)) X : vadd r1 r2 = Some X ->
+  exists X1 X2, r1 = Some X1 /\ r2 = Some X2 /\ X = (fun s => X1 s + X2 s).
+Proof. destruct r1 as [f|], r2 as [g|]; cbn; intros H; try discriminate. inversion H. eauto. Qed.
+Lemma vscale_some c (r : option (K -> K)) X : vscale c r = Some X -> exists X0, r = Some X0 /\ X = (fun s => c * X0 s).
+Proof. destruct r as [f|]; cbn; intros H; [|discriminate]. inversion H. eauto. Qed.
+
+Theorem term_list_sound zic ms : forall X evs x, term_list zic ms = (Some X, evs) -> den_list ms = Some x ->
+  LPair K ex isr neg Fn (Icz zic) x (dom_list ms) X.
+Proof. induction ms as [|[c fs] ms IH]; intros X evs x; cbn [term_list den_list].
+  - intros H Hd. inversion H; subst. inversion Hd; subst. apply LP_zero.
+  - destruct (term1 zic c fs) as [r1 e1] eqn:E1. destruct (term_list zic ms) as [r2 e2] eqn:E2.
+    intros H Hd. inversion H as [[Hv He]]. apply vadd_some in Hv. destruct Hv as [X1 [X2 [-> [-> ->]]]].
+    destruct (den1 c fs) as [x1|] eqn:D1; [|discriminate]. destruct (den_list ms) as [x2|] eqn:D2; [|discriminate].
+    inversion Hd; subst x.
+    apply (LPair_dom K ex isr neg Fn (Icz zic) _ (fun s => dom1 fs s /\ dom_list ms s)); [intros s Hs; exact Hs|].
+    apply LP_add; [exact (term1_sound zic c fs X1 e1 x1 E1 D1) | exact (IH X2 e2 x2 eq_refl eq_refl)]. Qed.
+
+(* term (after remove_heaviside, as called by doit) is sound *)
+Theorem term_sound zic m X evs x : term zic (strip m) = (Some X, evs) -> den_mono m = Some x ->
+  LPair K ex isr neg Fn (Icz zic) x (dom_mono m) X.
+Proof. destruct m as [c fs0]. unfold strip, den_mono, dom_mono, term. cbn [fst snd].
+  set (fs := remove_heaviside fs0). destruct (existsb is_hyp fs).
+  - destruct (term_list zic (hyp_expand fs)) as [r ev0] eqn:Et. intros H Hd. inversion H as [[Hv He]].
+    apply vscale_some in Hv. destruct Hv as [X0 [-> ->]].
+    destruct (den_list (hyp_expand fs)) as [y|] eqn:Dy; [|discriminate]. inversion Hd; subst x.
+    apply LP_scale. exact (term_list_sound zic _ X0 ev0 y Et Dy).
+  - destruct (term1 zic c fs) as [r ev0] eqn:Et. intros H Hd. inversion H; subst r.
+    exact (term1_sound zic c fs X ev0 x Et Hd). Qed.
+
+Theorem doit_terms_sound zic e : forall X evs x, doit_terms zic e = (Some X, evs) -> den e = Some x ->
+  LPair K ex isr neg Fn (Icz zic) x (dom e) X.
+Proof. induction e as [|m e IH]; intros X evs x; cbn [doit_terms den].
+  - intros H Hd. inversion H; subst. inversion Hd; subst. apply LP_zero.
+  - destruct (term zic (strip m)) as [r1 e1] eqn:E1. destruct (doit_terms zic e) as [r2 e2] eqn:E2.
+    intros H Hd. inversion H as [[Hv He]]. apply vadd_some in Hv. destruct Hv as [X1 [X2 [-> [-> ->]]]].
+    destruct (den_mono m) as [x1|] eqn:D1; [|discriminate]. destruct (den e) as [x2|] eqn:D2; [|discriminate].
+    inversion Hd; subst x.
+    apply (LPair_dom K ex isr neg Fn (Icz zic) _ (fun s => dom_mono m s /\ dom e s)); [intros s Hs; exact Hs|].
+    apply LP_add; [exact (term_sound zic m X1 e1 x1 E1 D1) | exact (IH X2 e2 x2 eq_refl eq_refl)]. Qed.
+
+(* doit: factor_const reads the expression as  const · (expr / const) *)
+Theorem doit_sound zic e X evs y : doit zic e = (Some X, evs) -> den (divc (top_const e) e) = Some y ->
+  LPair K ex isr neg Fn (Icz zic) (SScale (top_const e) y) (dom (divc (top_const e) e)) X.
+Proof. unfold doit. destruct (doit_terms zic (divc (top_const e) e)) as [r ev0] eqn:Ed. intros H Hy.
+  inversion H as [[Hv He]]. apply vscale_some in Hv. destruct Hv as [X0 [-> ->]].
+  apply LP_scale. exact (doit_terms_sound zic _ X0 ev0 y Ed Hy). Qed.
+
+(* ---- linearity of the model ---------------------------------------------------------------------------------- *)
+Theorem L_linear_add zic e1 e2 X1 X2 : fst (doit_terms zic e1) = Some X1 -> fst (doit_terms zic e2) = Some X2 ->
+  exists X, fst (doit_terms zic (e1 ++ e2)) = Some X /\ forall s, X s = X1 s + X2 s.
+Proof. revert X1. induction e1 as [|m e1 IH]; intros X1; cbn [app doit_terms fst].
+  - intros H. inversion H; subst X1. intros H2. exists X2. split; [exact H2 | intros; ring].
+  - destruct (term zic (strip m)) as [r1 ev1]. destruct (doit_terms zic e1) as [r2 ev2]. cbn [fst] in *.
+    intros Hv H2. apply vadd_some in Hv. destruct Hv as [Y1 [Y2 [-> [-> ->]]]].
+    destruct (IH Y2 eq_refl H2) as [Z [HZ HZs]]. destruct (doit_terms zic (e1 ++ e2)) as [r3 ev3]. cbn [fst] in *. subst r3.
+    eexists. split; [reflexivity|]. intros s. cbn beta. rewrite HZs. ring. Qed.
+
+Lemma late_scale zic k c fs X evs : late zic c fs = (Some X, evs) ->
+  exists X', late zic (k * c) fs = (Some X', evs) /\ forall s, X' s = k * X s.
+Proof. unfold late. destruct (existsb is_named fs).
+  - destruct (undef_model zic fs) as [[X0|] ev0]; cbn [vscale]; intros H; inversion H; subst.
+    eexists; split; [cbn [vscale]; reflexivity | intros; cbn beta; ring].
+  - assert (Orc : forall b X evs, oracle_branch c fs b = (Some X, evs) ->
+              exists X', oracle_branch (k * c) fs b = (Some X', evs) /\ forall s, X' s = k * X s).
+    { intros b X0 ev0. unfold oracle_branch. destruct (prod_nf fs) as [N|]; [|discriminate].
+      destruct (orc N) as [f|]; cbn [vscale]; intros H; inversion H; subst.
+      eexists; split; [cbn [vscale]; reflexivity | intros; cbn beta; ring]. }
+    destruct fs as [|l [|l2 fs]]; try exact (Orc false X evs).
+    destruct (is_function l); [|exact (Orc false X evs)].
+    destruct (function_model l) as [X0|].
+    + intros H; inversion H; subst. eexists; split; [cbn [vscale]; reflexivity | intros; cbn beta; ring].
+    + destruct (oracle_branch c [l] true) as [r ev0] eqn:Eo. intros H; inversion H; subst r evs.
+      destruct (Orc true X ev0 Eo) as [X' [E' HX']]. rewrite E'. eexists; split; [reflexivity | exact HX']. Qed.
+Theorem term1_scale zic k c fs X evs : term1 zic c fs = (Some X, evs) ->
+  exists X', term1 zic (k * c) fs = (Some X', evs) /\
+    forall s, s <> 0 -> (forall a b, fs = [LExp a b] -> s - a <> 0) -> X' s = k * X s.
+Proof. destruct HF. unfold term1.
+  destruct (early c fs) as [X0|] eqn:Ee.
+  - intros H; inversion H; subst X0 evs. unfold early in *. destruct fs as [|l fs].
+    + inversion Ee; subst X. eexists; split; [reflexivity|]. intros s Hs _. rewrite !const_ok0 by exact Hs. field. exact Hs.
+    + destruct l; try discriminate. destruct fs; [|discriminate]. destruct (feqb b 0); [|discriminate]. inversion Ee; subst X.
+      eexists; split; [reflexivity|]. intros s Hs Ha. pose proof (Ha a b eq_refl) as Hn. rewrite !exp_ok0 by exact Hn. field. exact Hn.
+  - assert (Ee' : early (k * c) fs = None).
+    { unfold early in *. destruct fs as [|l fs]; [discriminate|]. destruct l; try reflexivity. destruct fs; [|reflexivity].
+      destruct (feqb b 0); [discriminate | reflexivity]. }
+    rewrite Ee'. destruct (existsb is_integral fs).
+    + unfold integral_model. destruct fs as [|l [|l2 fs]]; try discriminate; destruct l; try discriminate;
+        intros H; inversion H; subst; (eexists; split; [cbn [vscale]; reflexivity | intros; cbn beta; ring]).
+    + destruct (existsb is_trig fs).
+      * destruct (sincos_model fs) as [X0|].
+        -- intros H; inversion H; subst. eexists; split; [cbn [vscale]; reflexivity | intros; cbn beta; ring].
+        -- destruct (late zic c fs) as [r ev0] eqn:El. intros H; inversion H; subst r evs.
+           destruct (late_scale zic k c fs X ev0 El) as [X' [E' HX']]. rewrite E'. eexists; split; [reflexivity | intros; apply HX'].
+      * intros El. destruct (late_scale zic k c fs X evs El) as [X' [E' HX']]. eexists; split; [exact E' | intros; apply HX']. Qed.
+
+(* the initial-condition sum as written in derivative_undef (a loop over range(order)) *)
+Lemma sum_range_ext n (f g : nat -> K) : (forall m, (m < n)%nat -> f m = g m) -> sum_range n f = sum_range n g.
+Proof. induction n as [|n IH]; intros H; cbn [sum_range]; [reflexivity|]. rewrite IH by (intros; apply H; lia). rewrite H by lia. reflexivity. Qed.
+Lemma sum_range_scale n c (g : nat -> K) : sum_range n (fun m => c * g m) = c * sum_range n g.
+Proof. induction n as [|n IH]; cbn [sum_range]; [ring | rewrite IH; ring]. Qed.
+Lemma sum_range_ic (I : nat -> nat -> K) v n s :
+  sum_range n (fun m => fpow s (n - m - 1) * I v m) = ic_sum K I v n s.
+Proof. induction n as [|n IH]; cbn [sum_range ic_sum]; [reflexivity|]. rewrite <- IH.
+  replace (S n - n - 1)%nat with O by lia. cbn [fpow].
+  rewrite (sum_range_ext n _ (fun m => s * (fpow s (n - m - 1) * I v m))).
+  - rewrite sum_range_scale. ring.
+  - intros m Hm. replace (S n - m - 1)%nat with (S (n - m - 1)) by lia. cbn [fpow]. ring. Qed.
+
+(* ---- the result cache (Transformer.cache keyed by (expr, t, s, zero_initial_conditions)) ------------------------ *)
+Definition ckey := (tx * bool)%type.
+Variable key_eqb : ckey -> ckey -> bool.
+Hypothesis key_eqb_eq : forall a b, key_eqb a b = true -> a = b.
+Definition cache := list (ckey * option (K -> K)).
+Fixpoint lookup (k : ckey) (c : cache) : option (option (K -> K)) :=
+  match c with [] => None | (k', v) :: c' => if key_eqb k k' then Some v else lookup k c' end.
+Definition doit_c (c : cache) (zic : bool) (e : tx) : option (K -> K) * cache :=
+  let k := top_const e in
+  let e' := divc k e in
+  match lookup (e', zic) c with
+  | Some v => (vscale k v, c)
+  | None => let v := fst (doit_terms zic e') in (vscale k v, match v with Some _ => ((e', zic), v) :: c | None => c end)
+  end.
+Definition cache_ok (c : cache) : Prop := forall k v, In (k, v) c -> v = fst (doit_terms (snd k) (fst k)).
+Lemma lookup_ok c k v : cache_ok c -> lookup k c = Some v -> v = fst (doit_terms (snd k) (fst k)).
+Proof. induction c as [|[k' v'] c IH]; cbn [lookup]; intros Hc H; [discriminate|].
+  destruct (key_eqb k k') eqn:E.
+  - apply key_eqb_eq in E. subst k'. inversion H; subst v'. apply Hc. left. reflexivity.
+  - apply IH; [|exact H]. intros k0 v0 Hin. apply Hc. right. exact Hin. Qed.
+Theorem cache_transparent c zic e : cache_ok c ->
+  fst (doit_c c zic e) = fst (doit zic e) /\ cache_ok (snd (doit_c c zic e)).
+Proof. intros Hc. unfold doit_c, doit. cbv zeta.
+  destruct (lookup (divc (top_const e) e, zic) c) as [v|] eqn:El.
+  - pose proof (lookup_ok c _ v Hc El) as Hv. cbn [fst snd] in Hv. subst v.
+    destruct (doit_terms zic (divc (top_const e) e)) as [r ev0]. cbn [fst snd]. split; [reflexivity | exact Hc].
+  - destruct (doit_terms zic (divc (top_const e) e)) as [r ev0] eqn:Ed. cbn [fst snd]. split; [reflexivity|].
+    destruct r as [f|]; [|exact Hc]. intros k0 v0 [Hin|Hin]; [|exact (Hc k0 v0 Hin)].
+    inversion Hin; subst k0 v0. cbn [fst snd]. rewrite Ed. reflexivity. Qed.
+(* any history of transforms: every returned value is the uncached one *)
+Fixpoint run_c (c : cache) (qs : list (bool * tx)) : list (option (K -> K)) :=
+  match qs with [] => [] | (zic, e) :: qs' => let (v, c') := doit_c c zic e in v :: run_c c' qs' end.
+Theorem cache_transparent_history qs : forall c, cache_ok c -> run_c c qs = map (fun q => fst (doit (fst q) (snd q))) qs.
+Proof. induction qs as [|[zic e] qs IH]; intros c Hc; cbn [run_c map fst snd]; [reflexivity|].
+  destruct (cache_transparent c zic e Hc) as [H1 H2]. destruct (doit_c c zic e) as [v c']. cbn [fst snd] in *.
+  rewrite H1, (IH c' H2). reflexivity. Qed.
 
 End LModel.
 
